@@ -25,6 +25,9 @@ def main():
         tier = sys.argv[sys.argv.index("--tier") + 1]
     patch = os.path.join(d, "patch.diff")
     demo = os.path.join(d, "demo.py")
+    scratch = "--scratch" in sys.argv
+    if scratch:
+        return main_scratch(d, checks, tier, patch, demo)
     st = sh("git -C /repo status --porcelain").stdout.strip()
     if st:
         print("refusing: /repo is not clean:\n" + st)
@@ -61,6 +64,51 @@ def main():
                                         (detail[0][:200] if detail else "")))
     finally:
         sh("git -C /repo reset -q --hard HEAD")
+    with open(os.path.join(d, "result.json"), "w") as f:
+        json.dump(res, f, indent=1)
+    print(json.dumps({k: v for k, v in res.items() if k != "checks"}))
+    return 0
+
+
+def main_scratch(d, checks, tier, patch, demo):
+    """same, against an export of /repo's HEAD under /var/tmp (used while /repo must stay untouched,
+    e.g. while a long run reads it); results are marked scratch and never become evidence"""
+    import shutil
+    import tempfile
+    tree = tempfile.mkdtemp(prefix="seedtree_", dir="/var/tmp")
+    out = tempfile.mkdtemp(prefix="seedout_", dir="/var/tmp")
+    res = {"checks": {}, "ran_at": time.strftime("%Y-%m-%d %H:%M:%S"), "scratch": True,
+           "repo_head": sh("git -C /repo rev-parse --short HEAD").stdout.strip()}
+    try:
+        sh("git -C /repo archive HEAD src | tar -x -C %s" % tree)
+        denv = dict(os.environ, PYTHONPATH=os.path.join(tree, "src"))
+        pre = "import cr; cr.__path__.insert(0, %r); " % os.path.join(tree, "src", "cr")
+        def run_demo():
+            return sh("/venv/bin/python -c %r" % (pre + "import runpy, sys; sys.argv=[%r]; "
+                                                   "runpy.run_path(%r, run_name='__main__')"
+                                                   % (demo, demo)), env=denv)
+        if os.path.exists(demo):
+            res["demo_unchanged_exit"] = run_demo().returncode
+        a = sh("cd %s && patch -p1 --no-backup-if-mismatch < %s" % (tree, patch))
+        if a.returncode != 0:
+            print("patch does not apply: " + (a.stdout + a.stderr)[-500:])
+            return 2
+        if os.path.exists(demo):
+            res["demo_changed_exit"] = run_demo().returncode
+        env = dict(os.environ, VERIF_REPO_SRC=os.path.join(tree, "src"), VERIF_OUT=out)
+        for c in checks:
+            t0 = time.time()
+            r = sh("cd %s && ./check %s --tier %s" % (VERIF, c, tier), env=env)
+            viol = [l for l in r.stdout.splitlines() if l.startswith("VIOLATION")]
+            detail = [l.strip() for l in r.stdout.splitlines() if l.startswith("  ")][:2]
+            res["checks"][c] = {"exit": r.returncode, "violations": len(viol),
+                                "first": detail[:1], "wall_s": round(time.time() - t0, 1),
+                                "stderr": r.stderr[-300:] if r.returncode == 2 else ""}
+            print("%s: %s exit=%d %s" % (os.path.basename(d), c, r.returncode,
+                                        (detail[0][:200] if detail else "")))
+    finally:
+        shutil.rmtree(tree, ignore_errors=True)
+        shutil.rmtree(out, ignore_errors=True)
     with open(os.path.join(d, "result.json"), "w") as f:
         json.dump(res, f, indent=1)
     print(json.dumps({k: v for k, v in res.items() if k != "checks"}))
